@@ -13,10 +13,11 @@ def check_case(ctx, cs):
     tg = [kind, "rational" if a["rat"] else "nonrational", "perturb=" + pk]
     small = {"deg": a["deg"], "kv": a["kv"], "rat": a["rat"], "perturb": pk}
     ctx.count(("pair", shape_key(a), pk, core.json.dumps(o["B"], sort_keys=True)), sample={**small, "expected_equal": o["eq"]})
-    ok, A = _try(ctx, "build", tg, small, lambda: build(a))
+    extra = {"precision": o["precision"]} if "precision" in o else {}
+    ok, A = _try(ctx, "build", tg, small, lambda: build(a, **extra))
     if not ok:
         return
-    ok, B = _try(ctx, "build", tg, small, lambda: build(o["B"]))
+    ok, B = _try(ctx, "build", tg, small, lambda: build(o["B"], **extra))
     if not ok:
         return
     site = "abstract.SplineGeometry.__eq__"
@@ -59,7 +60,7 @@ def run(ctx):
     for tag, cs in res.cases:
         kinds[cs["out"]["kind"]] = kinds.get(cs["out"]["kind"], 0) + 1
         check_case(ctx, cs)
-    if len(kinds) < 7:
+    if len(kinds) < 9:
         raise core.MachineryError("vacuous model: %s" % kinds)
     ctx.traces = len(res.cases)
     ctx.extra["pairs_by_perturbation"] = kinds
